@@ -214,3 +214,96 @@ class Fixture:
             sys.path.remove(self.root)
         for n in [m for m in sys.modules if m in ("shapes", "geo", "geo.points") or m.startswith("applymod_")]:
             sys.modules.pop(n, None)
+
+
+# ---------------------------------------------------------------------------------------------------
+# statement trees for the remover correspondence (model `Imports.Stmt` <-> source text <-> ast)
+
+MODS = ["shapes", "geo.points", "collections", "typing", "mypy_extensions", "os.path", "a", "a.b"]
+NAMES = ["Circle", "Point", "OrderedDict", "List", "TypedDict", "join", "X", "Y"]
+ALIASES = [None, None, None, "C", "OD", "P"]
+
+
+def gen_stmt_tree(rng, depth=3, n=None):
+    """list of model statements; every block body contains at least one non-import statement"""
+    out = []
+    counter = gen_stmt_tree.counter
+    for _ in range(n if n is not None else rng.randrange(1, 6)):
+        r = rng.random()
+        if r < 0.22:
+            out.append(("importMod",) + tuple((rng.choice(MODS), rng.choice(ALIASES)) for _ in range(rng.choice([1, 1, 2, 3]))))
+        elif r < 0.55:
+            out.append(("importFrom", rng.choice(MODS)) + tuple((rng.choice(NAMES), rng.choice(ALIASES)) for _ in range(rng.choice([1, 1, 2, 3]))))
+        elif r < 0.6:
+            out.append(("importStar", rng.choice(MODS)))
+        elif r < 0.8 or depth == 0:
+            counter[0] += 1
+            out.append(("other", counter[0]))
+        else:
+            counter[0] += 1
+            i = counter[0]
+            counter[0] += 1
+            out.append(("block", i, ("other", counter[0])) + tuple(gen_stmt_tree(rng, depth - 1)))
+    return out
+
+
+gen_stmt_tree.counter = [0]
+
+
+def stmts_to_source(stmts, indent=""):
+    lines = []
+    for s in stmts:
+        h = s[0]
+        if h == "importMod":
+            lines.append(indent + "import " + ", ".join(n + (" as " + a if a else "") for n, a in s[1:]))
+        elif h == "importFrom":
+            lines.append(indent + "from %s import " % s[1] + ", ".join(n + (" as " + a if a else "") for n, a in s[2:]))
+        elif h == "importStar":
+            lines.append(indent + "from %s import *" % s[1])
+        elif h == "other":
+            lines.append(indent + "_v = %d" % s[1])
+        else:
+            i = s[1]
+            head = ["def f_%d():", "if c_%d:", "class C_%d:", "while w_%d:", "with m_%d:"][i % 5] % i
+            lines.append(indent + head)
+            lines.append(stmts_to_source(s[2:], indent + "    "))
+    return "\n".join(lines)
+
+
+def source_to_stmts(text):
+    def conv(body):
+        out = []
+        for n in body:
+            if isinstance(n, ast.Import):
+                out.append(("importMod",) + tuple((a.name, a.asname) for a in n.names))
+            elif isinstance(n, ast.ImportFrom):
+                if any(a.name == "*" for a in n.names):
+                    out.append(("importStar", n.module))
+                else:
+                    out.append(("importFrom", n.module) + tuple((a.name, a.asname) for a in n.names))
+            elif isinstance(n, ast.Assign):
+                out.append(("other", n.value.value))
+            elif isinstance(n, ast.Pass):
+                out.append(("pass",))
+            else:
+                if isinstance(n, (ast.FunctionDef, ast.ClassDef)):
+                    i = int(n.name.split("_")[1])
+                elif isinstance(n, (ast.If, ast.While)):
+                    i = int(n.test.id.split("_")[1])
+                else:
+                    i = int(n.items[0].context_expr.id.split("_")[1])
+                out.append(("block", i) + tuple(conv(n.body)))
+        return out
+    return conv(ast.parse(text).body)
+
+
+def stmt_items(stmts):
+    out = []
+    for s in stmts:
+        if s[0] == "importMod":
+            out += [(n, None, a) for n, a in s[1:]]
+        elif s[0] == "importFrom":
+            out += [(s[1], n, a) for n, a in s[2:]]
+        elif s[0] == "block":
+            out += stmt_items(s[2:])
+    return out
